@@ -66,6 +66,9 @@ class GenericSystemRegistry(
         """Generate subclasses on the fly and attach them to self"""
         super()._init_dynamic_classes()
         self.System = create_class_with_registry(self, objects.System)
+        # systems that exist already (a deep copy of a registry) belong to this registry
+        for system in getattr(self, "_systems", {}).values():
+            system.__class__ = self.System
 
     def _after_init(self) -> None:
         """Invoked at the end of ``__init__``.
